@@ -3,11 +3,12 @@
 # including the race-enabled standard library).
 set -e
 export GOFLAGS=-mod=mod GOPROXY=off GOSUMDB=off GOTOOLCHAIN=local CGO_ENABLED=1
-cd /verif
+cd "$(dirname "$(realpath "$0")")"
+export VERIF_DIR="$PWD"
 mkdir -p bin work replays evidence
 cp /repo/go.sum sim/go.sum
 cd sim
 go build -tags verif ./...
-go build -tags verif -o /verif/bin/sim ./cmd/sim
-go build -tags verif -race -o /verif/bin/sim-race ./cmd/sim
+go build -tags verif -o $VERIF_DIR/bin/sim ./cmd/sim
+go build -tags verif -race -o $VERIF_DIR/bin/sim-race ./cmd/sim
 echo setup ok
